@@ -338,10 +338,16 @@ fn write_seq(p: &mut libtw2_packer::Packer, seq: &[&Field]) -> Result<(), usize>
 }
 
 fn check_sequence(seq: &[&Field]) -> Result<String, String> {
+    check_sequence_caps(seq, true)
+}
+
+/// `all_caps`: every capacity 0..total+1; otherwise only those within 6 bytes of what is needed
+/// (for long fields).
+fn check_sequence_caps(seq: &[&Field], all_caps: bool) -> Result<String, String> {
     let exp = expected_bytes(seq);
     let total = exp.len();
     // every capacity 0..total+1 for three kinds of backing store
-    for cap in 0..=total + 1 {
+    for cap in (0..=total + 1).filter(|c| all_caps || *c + 6 >= total || *c < 3) {
         // slice
         let mut arena = vec![0xc5u8; cap + 4];
         let r: Result<Vec<u8>, usize> = with_packer(&mut arena[..cap], |mut p| write_seq(&mut p, seq).map(|()| p.written().to_vec()));
@@ -472,7 +478,7 @@ fn check_sequence(seq: &[&Field]) -> Result<String, String> {
         return Err("finish warns although everything was read".into());
     }
     // every truncation: some read fails, never a panic, and afterwards all reads fail
-    for cut in 0..total {
+    for cut in (0..total).filter(|c| all_caps || *c < 8 || *c + 8 >= total || *c % 4099 == 0) {
         let mut u = Unpacker::new(&exp[..cut]);
         let mut w: Vec<Warning> = Vec::new();
         let mut failed = false;
@@ -537,6 +543,41 @@ fn sequences(run: &Arc<Run>, depth: usize) {
                 }
                 Err(p) => {
                     run.violation(&format!("c08:packer:{}", vp_core::panic_sig(&p)), &p, json!({"writes": format!("{:?}", seq)}));
+                }
+            }
+            lc
+        })
+        .reduce(LocalClasses::new, |a, b| a.merge(b));
+    run.merge_classes(lc);
+}
+
+/// Field LENGTHS: strings, length-prefixed data and raw bytes of every length 0..=300 and on
+/// both sides of the lengths at which the length prefix grows (64, 8192, 1048576 need one more
+/// byte), alone and between two other fields.
+fn lengths(run: &Arc<Run>) {
+    let mut lens: Vec<usize> = (0..=300).collect();
+    lens.extend([1000, 4095, 4096, 8190, 8191, 8192, 8193, 16383, 16384, 16385, 65535, 65536, 1 << 20, (1 << 20) + 1]);
+    let cases: Vec<(usize, u8)> = lens.iter().flat_map(|&l| (0..6u8).map(move |k| (l, k))).collect();
+    let lc = cases
+        .par_iter()
+        .fold(LocalClasses::new, |mut lc, &(len, kind)| {
+            let bytes: Vec<u8> = (0..len).map(|i| 1 + (i % 251) as u8).collect();
+            let (a, z) = (Field::Int(-65), Field::Str(b"z".to_vec()));
+            let f = match kind % 3 {
+                0 => Field::Data(bytes),
+                1 => Field::Str(bytes),
+                _ => Field::Raw(bytes),
+            };
+            let seq: Vec<&Field> = if kind < 3 { vec![&f] } else { vec![&a, &f, &z] };
+            lc.eval();
+            let what = format!("{} of {} bytes{}", ["data", "string", "raw"][(kind % 3) as usize], len, if kind < 3 { "" } else { " between an int and a string" });
+            match vp_core::catch(|| check_sequence_caps(&seq, len <= 300)) {
+                Ok(Ok(_)) => lc.class(&format!("length:{}:prefix-bytes-{}", ["data", "string", "raw"][(kind % 3) as usize], if kind % 3 == 0 { ref_encode(len as i32).1 } else { 0 }), || json!({"len": len})),
+                Ok(Err(d)) => {
+                    run.violation("c08:packer-field-length", &format!("{}: {}", what, d), json!({"field": what}));
+                }
+                Err(p) => {
+                    run.violation(&format!("c08:packer:{}", vp_core::panic_sig(&p)), &format!("{}: {}", what, p), json!({"field": what}));
                 }
             }
             lc
@@ -616,10 +657,11 @@ fn main() {
     encode_all(&run);
     decode_sweep(&run, run.tier);
     sequences(&run, run.tier.pick(3, 4));
+    lengths(&run);
     demo_and_ints(&run);
     run.assume("reference encoder/decoder written from doc/int.md; for non-zero padding bits the documentation prescribes no value, only that the encoding is not canonical (a warning must be raised)");
     run.finish(
-        "all 2^32 integers encoded (length 1..5, byte-equal to the reference encoder, decode back, no warning, nothing left, shortest); every byte string of length 0..3 decoded against the reference decoder, 4/5-byte strings with first and last byte exhaustive and middle bytes from 10 boundary patterns (thorough: every 4-byte string and all 2^36 five-byte encodings); all sequences of <=3 (4) writes over a 14-field alphabet into slice/Vec/ArrayVec of every capacity, read back, every truncation; demo padding; IntUnpacker",
+        "all 2^32 integers encoded (length 1..5, byte-equal to the reference encoder, decode back, no warning, nothing left, shortest); every byte string of length 0..3 decoded against the reference decoder, 4/5-byte strings with first and last byte exhaustive and middle bytes from 10 boundary patterns (thorough: every 4-byte string and all 2^36 five-byte encodings); all sequences of <=3 (4) writes over a 14-field alphabet into slice/Vec/ArrayVec of every capacity, read back, every truncation; strings / length-prefixed data / raw bytes of every length 0..300 and on both sides of 8192, 16384, 65536 and 2^20, alone and between two other fields; demo padding; IntUnpacker",
         true,
     );
 }
